@@ -98,6 +98,8 @@ def check(ctx):
         ctx.undecided('SIB', 'unpack_sections / unpack_lots agree on the range skeleton', 'one skeleton not recognised')
     ctx.attempt(_routes)
     ctx.attempt(every_match_registers, rule='TBL')
+    ctx.attempt(common.dedup_idioms, [f for f in ctx.repo.funcs.values() if f.module.name.endswith(
+        ('plssdesc.plss_parse', 'unpack.unpackers', 'tract.tract_parse'))])
     ctx.attempt(_sibling_through)
     ctx.attempt(_siblings_and_resets)
     from .c06 import ilots_after_l          # 'integer lot numbers' of the statement
